@@ -2016,3 +2016,295 @@ impl Campaign for ConnectedUdpGreedy {
         }
     }
 }
+
+// ---------------------------------------------------------------------------
+// C13 / C14: UDP histories in which the receiver goes away and comes back on the same
+// port. The socket handed to the constructor is *unconnected*, so it cannot observe its
+// peer: the same call sequence is run against a second sink whose receiver never goes
+// away (metamorphic relation). Every call must return the same result in both runs, every
+// datagram that leaves while the receiver is bound must be the one the reference run sent
+// in that call, and stats() must read the same after every call. Unbuffered sinks are
+// judged absolutely as well (one datagram == the metric per Ok emit).
+
+#[derive(Serialize, Deserialize, Clone, Debug, PartialEq, Eq)]
+pub enum ROp {
+    Emit(u32),
+    Flush,
+}
+
+#[derive(Serialize, Deserialize, Clone, Debug)]
+pub struct UdpRestartCase {
+    pub buffered: Option<Option<usize>>,
+    pub nonblocking: bool,
+    pub addr_form: u8,
+    /// phases alternate receiver bound / receiver gone, starting bound
+    pub phases: Vec<Vec<ROp>>,
+}
+
+pub struct UdpRestart {
+    pub name: &'static str,
+    pub telemetry: bool,
+}
+
+fn udp_recv_all(rx: &UdpSocket, expect: usize, grace: Duration) -> Vec<Vec<u8>> {
+    let mut out = Vec::new();
+    let mut buf = vec![0u8; 70_000];
+    let mut pull = |out: &mut Vec<Vec<u8>>| {
+        while let Ok(n) = rx.recv(&mut buf) {
+            out.push(buf[..n].to_vec());
+        }
+    };
+    pull(&mut out);
+    if out.len() < expect {
+        let deadline = Instant::now() + grace;
+        while out.len() < expect && Instant::now() < deadline {
+            std::thread::sleep(Duration::from_micros(100));
+            pull(&mut out);
+        }
+    } else {
+        std::thread::sleep(Duration::from_micros(200));
+        pull(&mut out);
+    }
+    out
+}
+
+impl Campaign for UdpRestart {
+    type Case = UdpRestartCase;
+    fn name(&self) -> &'static str {
+        self.name
+    }
+    fn max_shrink_iters(&self) -> u32 {
+        60
+    }
+    fn strategy(&self, _tier: Tier) -> BoxedStrategy<UdpRestartCase> {
+        let op = |cap: Option<usize>| -> BoxedStrategy<ROp> {
+            let near = cap.unwrap_or(512) as u32;
+            prop_oneof![
+                10 => (1u32..40).prop_map(ROp::Emit),
+                3 => (near.saturating_sub(3)..near + 3).prop_map(ROp::Emit),
+                2 => (40u32..700).prop_map(ROp::Emit),
+                1 => Just(ROp::Emit(65_508)),
+                2 => Just(ROp::Flush),
+            ]
+            .boxed()
+        };
+        let buffered = prop_oneof![
+            2 => Just(None),
+            1 => Just(Some(None)),
+            4 => (8usize..96).prop_map(|c| Some(Some(c))),
+        ];
+        (buffered, any::<bool>(), 0u8..3)
+            .prop_flat_map(move |(buffered, nonblocking, addr_form)| {
+                let cap = match buffered {
+                    None => None,
+                    Some(None) => Some(512),
+                    Some(Some(c)) => Some(c),
+                };
+                proptest::collection::vec(proptest::collection::vec(op(cap), 1..6), 2..6).prop_map(move |phases| UdpRestartCase {
+                    buffered,
+                    nonblocking,
+                    addr_form,
+                    phases,
+                })
+            })
+            .boxed()
+    }
+    fn check(&self, case: &UdpRestartCase, ctx: &Ctx) -> Outcome {
+        let grace = Duration::from_millis(if ctx.shrinking { 150 } else { 2000 });
+        let sc = SockCase {
+            transport: Transport::Udp,
+            buffered: case.buffered,
+            nonblocking: case.nonblocking,
+            queued: false,
+            addr_form: case.addr_form,
+            path_form: 0,
+            ops: Vec::new(),
+        };
+        // a port taken by another socket of this machine while ours was closed: the case is not run
+        let skip = || Outcome::ok();
+        let mk = || -> Option<(DynSink, UdpSocket, UdpSocket)> {
+            let rx = Rx::new(Transport::Udp).ok()?;
+            let sink = build_sink(&sc, &rx).ok()?;
+            match rx {
+                Rx::Udp { target, decoy } => Some((sink, target, decoy)),
+                _ => None,
+            }
+        };
+        let (test, t_rx, t_decoy) = match mk() {
+            Some(x) => x,
+            None => return skip(),
+        };
+        let (reference, r_rx, r_decoy) = match mk() {
+            Some(x) => x,
+            None => return skip(),
+        };
+        let addr = match t_rx.local_addr() {
+            Ok(a) => a,
+            Err(_) => return skip(),
+        };
+        let mut t_rx = Some(t_rx);
+        let buffered = case.buffered.is_some();
+        let mut wire: Vec<String> = Vec::new();
+        let mut tele: Vec<String> = Vec::new();
+        let mut truth = SinkStats::default();
+        let mut lost_while_gone = 0usize;
+        let mut arrived_after_restart = 0usize;
+        let mut restarts = 0usize;
+        let res_tok = |r: &Result<usize, io::Error>| -> String {
+            match r {
+                Ok(n) => format!("Ok({})", n),
+                Err(e) => format!("Err({:?})", e.kind()),
+            }
+        };
+        let mut opno = 0usize;
+        'outer: for (pi, phase) in case.phases.iter().enumerate() {
+            let bound = pi % 2 == 0;
+            if bound && t_rx.is_none() {
+                match UdpSocket::bind(addr) {
+                    Ok(s) => {
+                        let _ = s.set_nonblocking(true);
+                        t_rx = Some(s);
+                        restarts += 1;
+                    }
+                    Err(_) => {
+                        std::mem::forget(test);
+                        std::mem::forget(reference);
+                        return skip();
+                    }
+                }
+            } else if !bound {
+                t_rx = None;
+            }
+            for op in phase {
+                opno += 1;
+                let (what, r_res, t_res): (String, Result<usize, io::Error>, Result<usize, io::Error>) = match op {
+                    ROp::Emit(n) => {
+                        let m = sized_metric(*n as usize);
+                        let r = catch(|| (reference.emit(&m), test.emit(&m)));
+                        match r {
+                            Ok((a, b)) => (format!("emit of {} bytes", n), a, b),
+                            Err(_) => break 'outer, // panics are C20's
+                        }
+                    }
+                    ROp::Flush => match catch(|| (reference.flush(), test.flush())) {
+                        Ok((a, b)) => ("flush".to_string(), a.map(|_| 0), b.map(|_| 0)),
+                        Err(_) => break 'outer,
+                    },
+                };
+                let expect = if !buffered && matches!(op, ROp::Emit(_)) && r_res.is_ok() { 1 } else { 0 };
+                let r_got = udp_recv_all(&r_rx, expect, grace);
+                if res_tok(&r_res) != res_tok(&t_res) {
+                    wire.push(format!(
+                        "op #{} ({}): returned {} on the sink whose receiver was {} but {} on an identical sink, same calls, whose receiver never went away (the socket is unconnected: it cannot observe its peer)",
+                        opno,
+                        what,
+                        res_tok(&t_res),
+                        if bound { if restarts > 0 { "restarted earlier" } else { "bound" } } else { "gone" },
+                        res_tok(&r_res)
+                    ));
+                }
+                if let Some(rx) = &t_rx {
+                    let t_got = udp_recv_all(rx, r_got.len(), grace);
+                    if t_got != r_got {
+                        wire.push(format!(
+                            "op #{} ({}): {} datagram(s) [{}] arrived at the address given at construction ({} receiver restarts so far) but the reference run sent {} [{}] in this call",
+                            opno,
+                            what,
+                            t_got.len(),
+                            t_got.iter().map(|d| show(d)).collect::<Vec<_>>().join(" | "),
+                            restarts,
+                            r_got.len(),
+                            r_got.iter().map(|d| show(d)).collect::<Vec<_>>().join(" | ")
+                        ));
+                    }
+                    if restarts > 0 {
+                        arrived_after_restart += t_got.len();
+                    }
+                    if !buffered {
+                        if let ROp::Emit(n) = op {
+                            let m = sized_metric(*n as usize).into_bytes();
+                            match &t_res {
+                                Ok(k) => {
+                                    if *k != m.len() || t_got.len() != 1 || t_got[0] != m {
+                                        wire.push(format!("op #{}: unbuffered emit of {} bytes returned Ok({}) and {} datagram(s) arrived", opno, m.len(), k, t_got.len()));
+                                    }
+                                }
+                                Err(_) => {
+                                    if !t_got.is_empty() {
+                                        wire.push(format!("op #{}: unbuffered emit returned an error but {} datagram(s) arrived", opno, t_got.len()));
+                                    }
+                                }
+                            }
+                        }
+                    }
+                } else {
+                    lost_while_gone += r_got.len();
+                }
+                if !buffered {
+                    if let ROp::Emit(n) = op {
+                        match &t_res {
+                            Ok(k) => {
+                                truth.packets_sent += 1;
+                                truth.bytes_sent += *k as u64;
+                            }
+                            Err(_) => {
+                                truth.packets_dropped += 1;
+                                truth.bytes_dropped += *n as u64;
+                            }
+                        }
+                    }
+                }
+                if let (Ok(ts), Ok(rs)) = (catch(|| test.stats()), catch(|| reference.stats())) {
+                    let fmt = |s: &SinkStats| format!("{{sent {} / {} B, dropped {} / {} B}}", s.packets_sent, s.bytes_sent, s.packets_dropped, s.bytes_dropped);
+                    if !eq_stats(&ts, &rs) && res_tok(&r_res) == res_tok(&t_res) {
+                        tele.push(format!(
+                            "op #{} ({}): stats() = {} but an identical sink that made the same calls with the same results reads {} (receiver {})",
+                            opno,
+                            what,
+                            fmt(&ts),
+                            fmt(&rs),
+                            if bound { "bound" } else { "gone" }
+                        ));
+                    }
+                    if !buffered && !eq_stats(&ts, &truth) {
+                        tele.push(format!("op #{} ({}): stats() = {} but the emits that returned Ok / Err add up to {}", opno, what, fmt(&ts), fmt(&truth)));
+                    }
+                }
+            }
+        }
+        let _ = catch(move || {
+            drop(reference);
+            drop(test)
+        });
+        let r_got = udp_recv_all(&r_rx, 0, grace);
+        if let Some(rx) = &t_rx {
+            let t_got = udp_recv_all(rx, r_got.len(), grace);
+            if t_got != r_got {
+                wire.push(format!("drop: {} datagram(s) arrived at the address given at construction but the reference run sent {} when dropped", t_got.len(), r_got.len()));
+            }
+            if restarts > 0 {
+                arrived_after_restart += t_got.len();
+            }
+        }
+        if !udp_recv_all(&t_decoy, 0, grace).is_empty() || !udp_recv_all(&r_decoy, 0, grace).is_empty() {
+            wire.push("a datagram was sent to an address other than the one given at construction".into());
+        }
+        let bad = if self.telemetry { tele.first() } else { wire.first() };
+        let mut classes = Vec::new();
+        if lost_while_gone > 0 {
+            classes.push("UDP receiver gone while a datagram left");
+        }
+        if arrived_after_restart > 0 {
+            classes.push("datagram arrived at a restarted UDP receiver");
+        }
+        Outcome {
+            verdict: match bad {
+                None => Ok(()),
+                Some(b) => Err(b.clone()),
+            },
+            nontrivial: lost_while_gone > 0 && arrived_after_restart > 0,
+            fingerprint: util::hash_json(case),
+            classes,
+        }
+    }
+}
